@@ -182,6 +182,39 @@ func (r *runner) eng(op Op) (string, string) {
 			return "ok", "counter read although the file was not readable"
 		}
 		return "err", ""
+	case "openbadcounter":
+		// Open while the counter block does not parse (digits followed by a newline and padding): refused;
+		// the harness restores the block afterwards
+		path := filepath.Join(r.dir, "revision.counter")
+		orig, err := os.ReadFile(path)
+		if err != nil {
+			return rc(s.Open()), "no counter file"
+		}
+		bad := make([]byte, len(orig))
+		copy(bad, bytes.TrimRight(orig, "\x00 "))
+		if i := bytes.IndexByte(bad, 0); i >= 0 && i < len(bad)-1 {
+			bad[i] = '\n'
+		}
+		if werr := os.WriteFile(path, bad, 0600); werr != nil {
+			return "err", "harness: " + werr.Error()
+		}
+		oerr := s.Open()
+		if oerr != nil {
+			os.WriteFile(path, orig, 0600)
+		}
+		return rc(oerr), ""
+	case "setrevfail":
+		// SetRevisionCounter while the counter block cannot be written (pwrite: EBADF)
+		restore, err := breakFile(r.dir, "revision.counter", "", syscall.O_RDONLY)
+		if err != nil {
+			return "err", "harness: " + err.Error()
+		}
+		serr := s.SetRevisionCounter(op.V)
+		restore()
+		if serr == nil && restoreCount > 0 {
+			return "ok", "counter set although the file was not writable"
+		}
+		return rc(serr), ""
 	case "openfail":
 		// Open whose last step fails: volume.meta.tmp cannot be created
 		blocker := filepath.Join(r.dir, "volume.meta.tmp")
